@@ -30,6 +30,15 @@ def _case(draw):
     c["inp"] = {"n": draw(st.integers(2, 3)), "seed": draw(st.integers(0, 10 ** 6)), "special": draw(st.sampled_from([0.0, 0.4, 0.4, 1.0])),
                 "scale": draw(st.sampled_from([1.0, 1.0, 3.0, 0.3])), "ulp": draw(st.sampled_from([0, 0, 1, 2]))}
     c["mode"] = draw(st.sampled_from(["eval", "eval", "eval", "train"]))
+    if draw(st.integers(0, 14)) == 0:
+        # many features: the autoregressive inverse needs that many exact passes
+        c["shape"], c["dom"], c["ctx"] = [draw(st.integers(7, 14))], "R", draw(st.sampled_from([None, 2]))
+        c["spec"] = {"t": "ar_affine", "hidden": draw(st.sampled_from([4, 8, 16])), "blocks": draw(st.integers(0, 2)), "act": draw(st.sampled_from(["tanh", "relu"])),
+                     "res": True, "use_ctx": True, "seed": draw(st.integers(0, 1000))}
+        c["init"]["regime"] = draw(st.sampled_from(["fresh", "small", "moderate"]))
+    if c["mode"] == "eval" and draw(st.integers(0, 3)) == 0:
+        from vf.props.c13 import _add_dropout
+        c["spec"] = _add_dropout(c["spec"], draw(st.sampled_from([0.3, 0.5])))     # conditioners with dropout: inert in evaluation mode
     return c
 
 
@@ -129,6 +138,9 @@ def _run_case(case):
                        "ctx:%s" % (case.get("ctx") is not None), "top:" + site] + ["tag:" + t for t in b.tags[:4]]
         D = int(np.prod(case["shape"]))
         A = zoo.resolve_A_inv(b) + b.A_out
+        # maps evaluated by additions and multiplications only (affine layers, permutations, affine couplings / autoregressive
+        # layers, whose inverse is D exact passes) round-trip to a few ulps times the conditioning; spline inverses solve equations
+        EPSF = 1e-11 if case["spec"]["t"] in ("ar_affine", "c_affine", "c_additive", "paffine", "naive", "lu", "perm", "revperm", "randperm", "identity") else 1e-8
         fo = lambda Z: m(Z, ctx)[0]  # noqa
 
         def finite(*ts):
@@ -180,7 +192,7 @@ def _run_case(case):
                         res.labels.append("illcond")
                         continue
                     err = float((xh[i] - X[i]).abs().max())
-                    tol = 1e-8 * (float(y[i].abs().max()) * kJi + float(X[i].abs().max()) + 1e-4) + A * max(1.0, kJi)
+                    tol = EPSF * (float(y[i].abs().max()) * kJi + float(X[i].abs().max()) + 1e-4) + A * max(1.0, kJi)
                     res.see_ratio(err, tol)
                     if err > tol:
                         res.fail("roundtrip_x", site, "row %d: |inverse(forward(x)) - x| = %.3g > %.3g (kappa=%.3g, A=%.3g)" % (i, err, tol, kJi, A),
@@ -259,7 +271,7 @@ def _run_case(case):
                         res.inconclusive += 1
                         continue
                     err = float((y1[i] - Y[i]).abs().max())
-                    tol = 1e-8 * (float(x0[i].abs().max()) * kJ + float(Y[i].abs().max()) + 1e-4) + A * max(1.0, kJ)
+                    tol = EPSF * (float(x0[i].abs().max()) * kJ + float(Y[i].abs().max()) + 1e-4) + A * max(1.0, kJ)
                     res.see_ratio(err, tol)
                     if err > tol:
                         res.fail("roundtrip_y", site, "row %d: |forward(inverse(y)) - y| = %.3g > %.3g (kappa=%.3g, A=%.3g)" % (i, err, tol, kJ, A),
